@@ -427,6 +427,10 @@ func c14Body() func(h []dsim.Rec) {
 			case endIdle:
 				ok = isTimeout(ci.err)
 			}
+			if !ok && stalls && isTimeout(ci.err) {
+				// under stall injection the idle timeout may legitimately fire before the planned ending
+				ok = true
+			}
 			if !ok {
 				dsim.Failf("close-cause", "session %d (%s) ended by %s, but the close event carries %v", i, s.link.name, endNames[s.ending], ci.err)
 				return
@@ -503,7 +507,8 @@ func c14Body() func(h []dsim.Rec) {
 			}
 			for i := 1; i < len(ncs) && i-1 < len(chans); i++ {
 				prev := chans[i-1]
-				if prev.closed && ncs[i].T < prev.closeT+time.Second {
+				// (the application's clock reading of the close event is late under stall injection)
+				if prev.closed && !stalls && ncs[i].T < prev.closeT+time.Second {
 					dsim.Failf("reconnect-backoff", "connection %d was made at t=%v, only %v after the application received the close event of the previous channel (t=%v)", i, ncs[i].T, ncs[i].T-prev.closeT, prev.closeT)
 					return
 				}
